@@ -150,6 +150,85 @@ theorem solve_returns (a : Alg S) (g : Nat) : ∀ (j : Nat) (c : Ctl) (s : S) (k
         · simp; intro h0; exact absurd h0 hn
         · rw [C05.after_gens c _ hp]; simp only [if_neg hn]; omega
 
+
+/-! ### the counters of the control loop ARE the lengths of the algorithm's logs -/
+
+theorem stepOnce_evals (a : Alg S) (hmono : ∀ s k, a.nlog s ≤ a.nlog (a.step s k)) (c : Ctl) (s : S) (k : Nat) :
+    (stepOnce a c s k).1.evals + a.nlog s = c.evals + a.nlog (stepOnce a c s k).2.1 := by
+  have hst := stepOnce_state a c s k
+  cases hran : (stepOnce a c s k).2.2.2 with
+  | false =>
+    rw [hran] at hst
+    simp only [Bool.false_eq_true, if_false] at hst
+    rw [hst]
+    have : (stepOnce a c s k).1.evals = c.evals := by
+      unfold stepOnce at hran ⊢
+      simp only at hran ⊢
+      rcases C05.step_cases c (a.term s c.pre) _ _ with ⟨m, _, hs⟩ | ⟨_, m, _, hs⟩ | ⟨_, _, hs⟩
+      · rw [hs]; unfold Ctl.pre; split <;> simp [Ctl.resolve]
+      · rw [hs] at hran; simp at hran
+      · rw [hs] at hran; simp at hran
+    rw [this]
+  | true =>
+    rw [hran] at hst
+    simp only [if_true] at hst
+    rw [hst]
+    have : (stepOnce a c s k).1.evals = c.evals + (a.nlog (a.step s k) - a.nlog s) := by
+      unfold stepOnce at hran ⊢
+      simp only at hran ⊢
+      exact C05.step_evals_of_ran c _ _ _ hran
+    rw [this]
+    have := hmono s k
+    omega
+
+/-- **evaluation counter = evaluation log**: after `Solve`, `evaluations` has grown by exactly the number of records
+the algorithm appended to its evaluation log (every call of the user's cost, and nothing else) -/
+theorem solve_evals_eq_log (a : Alg S) (hmono : ∀ s k, a.nlog s ≤ a.nlog (a.step s k)) :
+    ∀ (fuel : Nat) (c : Ctl) (s : S) (k n : Nat),
+      (solve a fuel c s k n).ctl.evals + a.nlog s = c.evals + a.nlog (solve a fuel c s k n).st := by
+  intro fuel
+  induction fuel with
+  | zero => intro c s k n; simp [solve]
+  | succ fuel ih =>
+    intro c s k n
+    have h1 := stepOnce_evals a hmono c s k
+    unfold solve
+    simp only
+    cases hm : (stepOnce a c s k).2.2.1 with
+    | some m => simpa using h1
+    | none =>
+      simp only
+      have h2 := ih (stepOnce a c s k).1 (stepOnce a c s k).2.1
+        (if (stepOnce a c s k).2.2.2 = true then k + 1 else k) (n + 1)
+      omega
+
+theorem step_gens_of (c : Ctl) (tp tq : Bool) (d : Delta) (hp : c.powell = false) :
+    (c.step tp tq d).1.gens = c.gens + (if (c.step tp tq d).2.2 = true then d.dGens else 0) ∧
+    (c.step tp tq d).1.powell = false := by
+  rcases C05.step_cases c tp tq d with ⟨m, _, hs⟩ | ⟨_, m, _, hs⟩ | ⟨_, _, hs⟩
+  · rw [hs]
+    refine ⟨?_, ?_⟩
+    · unfold Ctl.pre; split <;> simp [Ctl.resolve]
+    · unfold Ctl.pre; split <;> simp [Ctl.resolve, hp]
+  · rw [hs]
+    simp only [if_true]
+    rw [C05.finalize_gens _ (by simpa using hp), C05.after_gens c _ hp, C05.finalize_powell]
+    exact ⟨rfl, by simpa using hp⟩
+  · rw [hs]
+    simp only [if_true]
+    rw [C05.after_gens c _ hp]
+    exact ⟨rfl, by simpa using hp⟩
+
+/-- one `Step` of the closed loop advances `generations` by one exactly when an iteration ran after the initial
+evaluation (`generations = len(stepmon) - 1`) -/
+theorem stepOnce_gens (a : Alg S) (c : Ctl) (s : S) (k : Nat) (hp : c.powell = false) :
+    (stepOnce a c s k).1.gens =
+      c.gens + (if (stepOnce a c s k).2.2.2 = true then (if c.nstep = 0 then 0 else 1) else 0) ∧
+    (stepOnce a c s k).1.powell = false := by
+  unfold stepOnce
+  simp only
+  exact step_gens_of c _ _ _ hp
+
 /-! ### differential evolution: the closed loop ends in a state of the open loop `DE.run` -/
 
 section DE
